@@ -5,6 +5,11 @@ here="$(cd "$(dirname "$0")/.." && pwd)"
 . "$here/scripts/env.sh"
 mkdir -p "$here/bin" "$here/evidence" "$here/replays"
 cd "$here/mc"
-go build -tags verif -o "$here/bin/check.setup" .
+ovl="$(mktemp -d /tmp/verif-ovl.XXXXXX)"
+python3 "$here/scripts/overlay.py" "$ovl"
+go build -tags verif -overlay "$ovl/overlay.json" -o "$here/bin/check.setup" .
+python3 "$here/scripts/overlay.py" "$ovl" --points
+go build -tags "verif decimal_pure_go" -overlay "$ovl/overlay.json" -o "$here/bin/check.setup" .
+rm -rf "$ovl"
 rm -f "$here/bin/check.setup"
 echo "setup ok"
